@@ -187,7 +187,7 @@ def train_multi_agent_on_policy(
 
     agent_ids = deepcopy(pop[0].shared_agent_ids)
     pop_loss = [{agent_id: [] for agent_id in agent_ids} for _ in pop]
-    pop_fitnesses = [{agent_id: [] for agent_id in agent_ids} for _ in pop]
+    pop_fitnesses = []
     entropy_hist = [{agent_id: [] for agent_id in agent_ids} for _ in pop]
     total_steps = 0
     loss = None
